@@ -31,6 +31,18 @@ Proof. induction l as [|a l IH]; [reflexivity|]. exact IH. Qed.
 
 Definition idn (c : relcall) : N := nn (rc_id c).
 
+(* 10.8: on the model's own observations no consumer has status 7 ("returned a context error other than context.Canceled"):
+   the observation function only produces the codes 2, 3 and 6 - a failing Wait / Resolve / ResolveWithReleased call of the
+   model returns the resolver's error or Canceled (Props_C10.c10_error_and_cancel_passthrough), which are reported with code 3.
+   No hypothesis: every state, every configuration. *)
+Lemma clause_10_8 (p0 : pobs) rets s from : p0 = pobs_of rets s from -> u_f10_8 p0 = [].
+Proof.
+  intros ->. unfold u_f10_8. cbn [po_cons pobs_of].
+  assert (F : forallb (fun x : N * N * N * N * N * N => let '(code, _, _, _, _, _) := x in negb (N.eqb code 7)) (map ccode6 (conss s)) = true).
+  { apply forallb_forall. intros y Hy. apply in_map_iff in Hy. destruct Hy as [x [<- _]]. unfold ccode6. destruct (cpcv x); reflexivity. }
+  now rewrite F.
+Qed.
+
 (* ------------------------------------------------------------------ *)
 Section Step.
   Variables (m : mst) (h : hst) (e : list N) (e0 : ev) (rets : list N).
